@@ -74,5 +74,6 @@ func main() {
 			fmt.Fprintln(os.Stderr, "encode:", err)
 			os.Exit(2)
 		}
+		out.Flush() // a crash in a later case must not lose the observations of the earlier ones
 	}
 }
